@@ -21,6 +21,10 @@ type Wire struct {
 	Call    int    // call sequence number that produced it (genuine) or -1
 	Note    string // attacker's description
 	Epoch   int    // sender's session epoch when produced (maintained by properties that need it)
+	AuthChanged bool   // attacker changed the authenticated range / MAC / made it unparsable
+	Class       string // attacker's mutation class
+	Origin      int    // ID of the genuine wire this one derives from (-1: none / itself genuine)
+	Delivered   int    // how many times it was delivered
 }
 
 type World struct {
@@ -30,6 +34,7 @@ type World struct {
 	Arch  []*Wire     // every wire message ever produced or crafted
 	Seq   int
 	Last  *CallResult
+	CurWire *Wire // wire being delivered right now (visible to observers)
 
 	logH    hash.Hash
 	LogKeep bool
@@ -115,7 +120,7 @@ func (w *World) Enqueue(p *Party, r *CallResult) []*Wire {
 }
 
 func (w *World) Put(from, to int, b []byte, genuine bool, parent, call int, note string) *Wire {
-	x := &Wire{ID: w.nextWire, From: from, To: to, Bytes: cp(b), Genuine: genuine, Parent: parent, Call: call, Note: note}
+	x := &Wire{ID: w.nextWire, From: from, To: to, Bytes: cp(b), Genuine: genuine, Parent: parent, Call: call, Note: note, Origin: -1}
 	w.nextWire++
 	w.Links[from][to] = append(w.Links[from][to], x)
 	w.Arch = append(w.Arch, x)
@@ -150,7 +155,10 @@ func (w *World) Take(from, to, idx int) *Wire {
 func (w *World) Deliver(x *Wire) *CallResult {
 	p := w.P[x.To]
 	w.Logf("deliver wire=%d %d->%d genuine=%v note=%s", x.ID, x.From, x.To, x.Genuine, x.Note)
+	w.CurWire = x
 	r := p.Receive(x.Bytes)
+	w.CurWire = nil
+	x.Delivered++
 	w.Deliveries++
 	if r.Plain != nil {
 		w.Got[p.Idx] = append(w.Got[p.Idx], r.Plain)
